@@ -143,7 +143,7 @@ def gen_template(rng, features: Dict[str, int]):
         features['typed_' + kind] = features.get('typed_' + kind, 0) + 1
     if rng.random() < 0.3:
         ne = Entity(tmpl, keys={'classname': 'func_instance', 'targetname': 'nested', 'file': 'other.vmf', 'origin': '1 2 3', 'angles': '0 0 0'})
-        ne.fixup['inner'] = rng.choice(('relay', '@glob', '123', 'Door_A', 'r2d2', 'x1', '-5', '.5'))
+        ne.fixup['inner'] = rng.choice(('relay', '@glob', '123', 'Door_A', 'r2d2', 'x1', '-5', '.5', '64 0 -32', '0 45 0', '255 128 0 200', '1e3', '3rd_door'))
         ne.fixup['second'] = '$var'
         tmpl.add_ent(ne)
         features['nested_instance'] = features.get('nested_instance', 0) + 1
@@ -519,12 +519,12 @@ class Collapser:
                     val0 = substitute_model(raw0, table)
                     if '$' in raw0:
                         self.run.count('nested_fixup_values_with_variables')
-                    if not val0 or val0[0] in '@!' or val0.replace('.', '', 1).lstrip('-').isdigit():
+                    # the documented rule ("Valve's logic"): a value that starts with a digit, a sign, a dot, '@' or '!' is
+                    # taken for a number / vector / special name and handed down as it is; anything else is an entity name
+                    if not val0 or val0[0] in '@!-.0123456789':
                         want = val0
-                    elif val0[0].isalpha():
-                        want = fixup_name_model(style, inst_name, val0)
                     else:
-                        continue
+                        want = fixup_name_model(style, inst_name, val0)
                     self.run.count('nested_fixup_values_checked')
                     if got != want:
                         self.fail(f'{label}: fixup ${var} of the nested instance is {got!r}, expected {want!r} (template {val0!r}, style {style})', 'nested-fixup-name')
